@@ -455,3 +455,16 @@ Definition noncanonical_balances : bytes :=
 Lemma noncanonical_accepted :
   exists b, run_flat dec_balances noncanonical_balances = Ok (b, []) /\ enc_balances b <> noncanonical_balances.
 Proof. exists [[5%Z]]. split; [vm_compute; reflexivity|vm_compute; discriminate]. Qed.
+
+(* what well-formedness says about the amounts of an allocation *)
+Lemma alloc_wf_amounts a : alloc_wf a = true ->
+  forall row z, In row (al_bals a) -> In z row -> (0 <= z)%Z /\ bigint_encodable z = true.
+Proof.
+  unfold alloc_wf. intros H row z Hr Hz.
+  apply andb_true_iff in H as [H _]. apply andb_true_iff in H as [_ Wb].
+  unfold balances_wf in Wb. apply andb_true_iff in Wb as [_ W].
+  rewrite forallb_forall in W. specialize (W row Hr). apply andb_true_iff in W as [_ W].
+  unfold bigints_ok in W. rewrite forallb_forall in W. specialize (W z Hz).
+  split; [|exact W]. unfold bigint_encodable in W. apply andb_true_iff in W as [W _].
+  apply Z.leb_le in W. exact W.
+Qed.
